@@ -96,6 +96,12 @@ class Repo:
                     if isinstance(t, ast.Name):
                         g[t.id] = ("assign", st.value)
                 self._collect_lambdas(m, st, prefix, parent)
+            elif isinstance(st, (ast.If, ast.Try, ast.For, ast.While, ast.With)) and not (toplevel or cls):
+                # nested definitions inside compound statements of a function body
+                for sub in ("body", "orelse", "finalbody"):
+                    self._collect(m, getattr(st, sub, []) or [], prefix, cls, parent, toplevel)
+                for h in getattr(st, "handlers", []) or []:
+                    self._collect(m, h.body, prefix, cls, parent, toplevel)
             elif isinstance(st, (ast.If, ast.Try)) and (toplevel or cls):
                 # module-level conditional definitions (try: import X / else: def ...)
                 for sub in ("body", "orelse", "finalbody"):
